@@ -21,6 +21,7 @@ BAD = 4999  # decoded tag of an internally inconsistent row
 
 
 # ------------------------------------------------------------------ tagged transitions
+EPS64 = 2.0 ** -30  # added to float64 observations; lost by any narrowing to float32
 NXT = 0.125  # next_obs carries the same tag as obs but shifted by this amount, so obs and next_obs cannot be confused
 
 
@@ -29,6 +30,11 @@ def make_obs(kind, tags, nxt=False):
     n = len(tags)
     if kind == "vector":
         return np.stack([t, t + 0.25, t + 0.5], axis=1)
+    if kind == "vector64":
+        # double-precision observations whose values are NOT representable in float32: a store that narrows
+        # the dtype no longer keeps the transition intact
+        t64 = np.asarray(tags, dtype=np.float64) + (NXT if nxt else 0.0) + EPS64
+        return np.stack([t64, t64 + 0.25, t64 + 0.5], axis=1)
     if kind == "image":
         return np.broadcast_to(t[:, None, None, None], (n, 2, 3, 3)).copy()
     if kind == "dict":
@@ -48,7 +54,7 @@ def make_transition(kind, tags):
     return tr.to_tensordict()
 
 
-def dec_uniform(x, offsets=None, shift=0.0):
+def dec_uniform(x, offsets=None, shift=0.0, exact=False):
     """rows -> tag (None for an all-zero row, BAD if inconsistent)"""
     x = np.asarray(x, dtype=np.float64).reshape(len(x), -1)
     out = []
@@ -58,7 +64,7 @@ def dec_uniform(x, offsets=None, shift=0.0):
             continue
         base = r[0] - shift
         exp = base + shift + (np.asarray(offsets) if offsets is not None else 0.0)
-        ok = np.allclose(r, exp) and float(base).is_integer() and 0 < base < BAD
+        ok = (np.array_equal(r, exp) if exact else np.allclose(r, exp)) and float(base).is_integer() and 0 < base < BAD
         out.append(int(base) if ok else BAD)
     return out
 
@@ -68,6 +74,11 @@ def decode_obs(kind, o, nxt=False):
     sh = NXT if nxt else 0.0
     if kind == "vector":
         return {"": dec_uniform(o, [0, 0.25, 0.5], sh)}
+    if kind == "vector64":
+        o = np.asarray(o)
+        if o.dtype != np.float64:      # narrowed: every non-empty row is damaged
+            return {"": [None if not np.any(r) else BAD for r in o.reshape(len(o), -1)]}
+        return {"": dec_uniform(o, [0, 0.25, 0.5], sh + EPS64, exact=True)}
     if kind == "image" or kind == "scalar":
         return {"": dec_uniform(o, None, sh)}
     if kind == "dict":
@@ -162,7 +173,7 @@ class C09(vlib.Driver):
                     ops.append(["sample", b, perm])
                 else:
                     size = 0; ops.append(["clear"])
-            cases.append({"kind": "single", "obs": rng.choice(["vector", "image", "dict", "tuple", "scalar"]),
+            cases.append({"kind": "single", "obs": rng.choice(["vector", "vector64", "image", "dict", "tuple", "scalar"]),
                           "cap": cap, "ops": ops, "every": 7})
         nma = 60 if tier == "quick" else 600
         for i in range(nma):
